@@ -396,6 +396,8 @@ def table_directed(samples=50000):
     rows = [i for i in range(256) if src[i] != mdl[i]]
     out = []
     exe = os.path.join(C.TARGET, "release", BIN)
+    if rows and not os.path.exists(exe):
+        C.cargo_build([BIN])
     for i in rows[:8]:
         lo, hi = (256 + i) << 55, (257 + i) << 55
         rng = random.Random(1000 + i)
